@@ -10,6 +10,8 @@ PROGRAMS = {
     "sens": ("mov rax, 0x5\nlea rcx, [2*rax]\nlea rdx, [rax+rsp]\nadd rax, 0x10\nnop5\nmov rdx, 1234\nret\n", True),
     "stack": ("xor eax, eax\nadd rax, 0x7f\nshl rax, 0x4\npush rax\npop rcx\nmov rax, rcx\nret\n", True),
     "decor": ("; leading comment\nsection .text\nstart:\n  MOV RAX , 0x2a ; answer\n\n\tadd rax, 1\r\nret", True),
+    "empty": ("", False),          # no program at all: nothing to print but the count (0) - from FILE and from stdin alike
+    "comment": ("; nothing\n", False),
     "badfirst": ("bogus rax\nret\n", False),
     "badlast": ("mov rax, 0x5\nret\nadd rax, rxx\n", False),
     "long": ("xor eax, eax\n" + "".join("add rax, 0x%x\n" % (k + 1) for k in range(40)) + "ret\n", True),
@@ -196,6 +198,12 @@ def run(prop, tier, replay=None):
                     cases.append((v["f"], v["opt"], "sens"))
                 for v in pick[420:840]:
                     cases.append((v["f"], v["opt"], rnd.choice(list(PROGRAMS))))
+            # the programs without any code, from FILE and from stdin, with every output flag (a count of 0 is still a count)
+            few = [v for v in vectors if not v["f"]["r"] and v["f"]["out"] in ("", "P") and v["f"]["pre"] == "none" and not v["f"]["short2"]]
+            rnd.shuffle(few)
+            for v in few[:60 if tier == "quick" else 600]:
+                for prog in ("empty", "comment"):
+                    cases.append((v["f"], v["opt"], prog))
         cases = [c for c in cases if not (c[0]["r"] and not PROGRAMS[c[2]][1])]
         # library reference for every distinct (options, chunk, count, program)
         refs, scripts = {}, []
